@@ -384,6 +384,8 @@ PROFILES = {
                    weights=w(var=3, map=10, bind=3, write=12, stabilise=10, observe=6, obs_misc=8, mapref=1, mapold=1, fold=1,
                              zip=0, dependon=1, cutoff=1),
                    obs_ops=["subscribe", "subscribe", "read", "drop", "clone", "unsubscribe"]),
+    "cutoffs": dict(weights=w(cutoff=8, write=14, stabilise=10, map=10, bind=3, observe=6, obs_misc=5),
+                    write_ops=["set", "set", "set", "update", "modify"], pair_prob=0.1),
     "lifecycle": dict(weights=w(var=1, map=3, bind=1, observe=8, obs_misc=20, write=5, stabilise=7, mapref=0, mapold=0, fold=0,
                                 zip=0, dependon=0, cutoff=0),
                       obs_ops=["clone", "drop", "drop", "disallow", "read", "read", "subscribe", "subscribe", "unsubscribe",
